@@ -1,6 +1,7 @@
 (* RenameFacts.v — proofs about Rename.v (C08): what change_key rewrites and what it leaves
-   alone (by induction over inlines and trees of any size), the taken-name guard, and the
-   end-to-end statement for a rename issued from a note in the library root. *)
+   alone (by induction over inlines and trees of any size), the taken-name guard, totality of
+   rename_core, and the end-to-end statement for a rename issued from a note in any directory
+   (rename_anywhere; rename_root is its instance for a note in the library root). *)
 From IweV Require Import Str Text Ast RelPath RelPathFacts Arena Project Library Rename.
 Local Open Scope string_scope.
 Local Open Scope list_scope.
@@ -226,7 +227,7 @@ Qed.
 (* ---------- the taken-name guard ------------------------------------------------------------------ *)
 
 Theorem taken_refused fx o scan L doc site new_name :
-  In (key_from_file_name new_name) (tl_keys L) ->
+  In (new_key_of fx doc new_name) (tl_keys L) ->
   rename_core fx o scan L doc site new_name = Ok (RErr (taken_msg new_name)).
 Proof.
   intros H. apply tl_find_some in H. destruct H as [n Hn]. unfold rename_core. now rewrite Hn.
@@ -245,7 +246,7 @@ Qed.
 
 Theorem taken_refused_graph fx o g tables L doc site new_name :
   tlib_of_graph g tables = Ok L ->
-  In (key_from_file_name new_name) (map fst (gr_keys g)) ->
+  In (new_key_of fx doc new_name) (map fst (gr_keys g)) ->
   handle_rename fx o g tables doc site new_name = Ok (RErr (taken_msg new_name)).
 Proof.
   intros HL Hin. unfold handle_rename. rewrite HL. cbn [bind].
@@ -338,48 +339,109 @@ Qed.
 (* the files of the library, one per note, named by the key *)
 Definition files_of (L : tlib) (st : store) : Prop := forall s, st s <> None <-> In s (tl_keys L).
 
-(* ---------- rename from a note in the library root -------------------------------------------------- *)
+(* ---------- rename_core answers ------------------------------------------------------------------------ *)
 
-Section Root.
+Lemma alookup_map_in_some {A} (g : tnote -> A) aff k :
+  In k (map tn_key aff) -> exists v, alookup k (map (fun a => (tn_key a, g a)) aff) = Some v.
+Proof.
+  induction aff as [|m aff IH]; intros H; [destruct H|].
+  cbn [map alookup] in *. destruct (String.eqb_spec k (tn_key m)) as [E|NE]; [eauto|].
+  destruct H as [H|H]; [now subst|]. now apply IH.
+Qed.
+
+Lemma fold_right_res_ok {X Y} (F : X -> res Y -> res Y) (b : Y) ks :
+  (forall k r, In k ks -> exists r', F k (Ok r) = Ok r') -> exists ov, fold_right F (Ok b) ks = Ok ov.
+Proof.
+  induction ks as [|k ks IH]; intros H; [eexists; reflexivity|]. cbn [fold_right].
+  destruct IH as (ov & ->); [intros k' r Hk; apply H; now right|]. apply H. now left.
+Qed.
+
+(* With the two repairs of the call in (a link to no note is refused; the new name is read once),
+   handle_rename's core never panics: whatever the library (keys need not even differ), the
+   directory of the note that holds the cursor, the link under it and the new name - as long as
+   the reader found the site and the index answers.  As found it panicked from every note of a
+   sub-directory (subdir_panics_as_found) and on every new name not spelled like its key. *)
+Theorem rename_core_total fx o (scan : scan_t) L doc s new_name :
+  fx_dangling fx = true -> fx_subdir fx = true ->
+  (forall key, exists r, scan key = Ok r) ->
+  exists r, rename_core fx o scan L doc (Ok s) new_name = Ok r.
+Proof.
+  intros Hd Hs Hscan. unfold rename_core, new_key_of. rewrite Hs.
+  destruct (tl_find L (from_rel_link_url new_name (key_parent doc))); [eauto|].
+  cbn [bind]. destruct s as [url|]; [|eauto].
+  destruct (tl_find L (from_rel_link_url url (key_parent doc))) as [nk|]; [|rewrite Hd; eauto].
+  destruct (Hscan (from_rel_link_url url (key_parent doc))) as (refers & ->). cbn [bind]. cbv zeta.
+  match goal with |- context [fold_right ?F (Ok []) ?ks] => destruct (fold_right_res_ok F [] ks) as (ov & ->) end.
+  { intros k r Hk. cbn [bind]. apply (proj1 (sort_keys_In _ _)) in Hk. cbn [alookup].
+    destruct (String.eqb k (from_rel_link_url new_name (key_parent doc))); [cbn [bind]; eauto|].
+    match goal with |- context [alookup k (map (fun x => (tn_key x, @?f x)) ?aff)] =>
+      destruct (alookup_map_in_some f aff k Hk) as ([t tb] & ->) end.
+    cbn [bind]. eauto. }
+  cbn [bind alookup]. rewrite String.eqb_refl. cbn [bind]. eauto.
+Qed.
+
+(* the same through the graph: only the library and the index can still fail *)
+Theorem handle_rename_total fx o g tables L doc s new_name :
+  fx_dangling fx = true -> fx_subdir fx = true ->
+  tlib_of_graph g tables = Ok L ->
+  (forall key, exists r, index_scan (gr_arena g) key = Ok r) ->
+  exists r, handle_rename fx o g tables doc (Ok s) new_name = Ok r.
+Proof.
+  intros Hd Hs HL Hi. unfold handle_rename. rewrite HL. cbn [bind]. now apply rename_core_total.
+Qed.
+
+(* ---------- rename from a note in any directory --------------------------------------------------- *)
+
+(* the text handle_rename writes for a note [n] of the library when [k] becomes [new] *)
+Definition text_of (fx : fixes) (o : opts) (k new : string) (n : tnote) (key : string) (meta : option string) : string :=
+  export_tree o meta (tn_tables n) key (change_key_tree fx k new (tn_tree n)).
+
+Section Anywhere.
   Variables (fx : fixes) (o : opts) (L : tlib).
-  Variables (doc url new : string).
+  Variables (doc url new_name : string).
 
-  Let k := from_rel_link_url url "".
-
-  (* the text handle_rename writes for a note of the library *)
-  Definition new_text_of (n : tnote) (key : string) (meta : option string) : string :=
-    export_tree o meta (tn_tables n) key (change_key_tree fx k new (tn_tree n)).
+  (* both read from the directory of the note that holds the cursor *)
+  Let k := from_rel_link_url url (key_parent doc).
+  Let new := from_rel_link_url new_name (key_parent doc).
 
   Hypothesis Hnodup : NoDup (tl_keys L).
-  Hypothesis Hdoc : key_parent doc = "".
   Hypothesis Hk : In k (tl_keys L).
-  Hypothesis Hmd : ends_with MD new = false.          (* the new name is typed without `.md` *)
-  Hypothesis Hcanon : from_rel_link_url new "" = new. (* and the way its key is written *)
   Hypothesis Hfree : ~ In new (tl_keys L).
+  (* the tree reads the new name once (the repair), or the name is one that both readings of
+     the unrepaired tree agree on *)
+  Hypothesis Hone : fx_subdir fx = true \/ (key_from_file_name new_name = new /\ strip_md new_name = new).
 
-  Theorem rename_root :
+  Theorem rename_anywhere :
     exists nk ops,
       tl_find L k = Some nk /\
-      rename_core fx o tree_scan L doc (Ok (Some url)) new = Ok (REdits ops) /\
+      rename_core fx o tree_scan L doc (Ok (Some url)) new_name = Ok (REdits ops) /\
+      (* the operations: overrides of notes of the library, then delete k, create and fill [new] -
+         the file of the new KEY (root-relative), whatever the spelling of the name *)
+      (exists ov, ops = ov ++ [OpDelete k; OpCreate new;
+                               OpInsert new (text_of fx o k new nk new (if fx_meta fx then tn_meta nk else None))] /\
+                  Forall (fun x => exists a t, x = OpOverride a t /\ In a (tl_keys L) /\ a <> k) ov) /\
       forall st, files_of L st ->
         exists st', apply_edits ops st = Some st' /\
-          st' new = Some (new_text_of nk new (if fx_meta fx then tn_meta nk else None)) /\
+          st' new = Some (text_of fx o k new nk new (if fx_meta fx then tn_meta nk else None)) /\
           st' k = None /\
           (forall n, In n L -> tn_key n <> k ->
              st' (tn_key n) = if tree_refers k (tn_tree n)
-                              then Some (new_text_of n (tn_key n) (tn_meta n))
+                              then Some (text_of fx o k new n (tn_key n) (tn_meta n))
                               else st (tn_key n)) /\
           (forall s, ~ In s (tl_keys L) -> s <> new -> st' s = None).
   Proof.
     destruct (tl_find_some L k Hk) as [nk Hnk].
     destruct (tl_find_in _ _ _ Hnk) as [Hnk_in Hnk_key].
-    assert (Hnew : key_from_file_name new = new) by now apply link_key_from_file_name.
+    assert (Hnew : new_key_of fx doc new_name = new).
+    { unfold new_key_of. destruct Hone as [->|[E _]]; [reflexivity|]. now destruct (fx_subdir fx). }
+    assert (Hstem : (if fx_subdir fx then new else strip_md new_name) = new).
+    { destruct Hone as [->|[_ E]]; [reflexivity|]. now destruct (fx_subdir fx). }
     assert (Hknew : k <> new) by (intros E; apply Hfree; now rewrite <- E).
     set (aff := affected_notes (fun n => tree_refers k (tn_tree n)) L k).
     set (aff_keys := sort_keys (map tn_key aff)).
     (* the text of an overridden note, as a function of its key *)
     set (otext := fun a => match tl_find L a with
-                           | Some n => new_text_of n a (tn_meta n)
+                           | Some n => text_of fx o k new n a (tn_meta n)
                            | None => "" end).
     assert (Haff_in : forall a, In a aff_keys -> exists n, In n aff /\ tn_key n = a).
     { intros a Ha. apply sort_keys_In, in_map_iff in Ha. destruct Ha as [n [E Hn]]. now exists n. }
@@ -389,9 +451,9 @@ Section Root.
       intros E. rewrite E, String.eqb_refl in Hne. discriminate. }
     assert (Haff_nodup : NoDup (map tn_key aff)) by (apply NoDup_keys_filter, Hnodup).
     exists nk.
-    eexists. split; [exact Hnk|]. split.
-    - unfold rename_core. rewrite (strip_md_none new Hmd), Hnew, (tl_find_none L new Hfree). cbn [bind]. rewrite Hdoc.
-      fold k. rewrite Hnk. cbn [tree_scan bind]. fold aff. fold aff_keys. rewrite Hcanon.
+    eexists. split; [exact Hnk|]. split; [|split].
+    - unfold rename_core. rewrite Hnew. fold new. rewrite (tl_find_none L new Hfree). cbn [bind]. rewrite Hstem.
+      fold k. rewrite Hnk. cbn [tree_scan bind]. fold aff. fold aff_keys.
       rewrite (fold_overrides _ otext).
       + cbn [bind alookup]. rewrite String.eqb_refl. cbn [bind]. reflexivity.
       + intros a Ha. destruct (Haff_in a Ha) as [n [Hn <-]].
@@ -401,6 +463,11 @@ Section Root.
         rewrite (alookup_map_nodup (fun a0 => (change_key_tree fx k new (tn_tree a0), tn_tables a0)) aff n Haff_nodup Hn).
         unfold otext. rewrite (tl_find_nodup L n Hnodup HnL).
         rewrite Bool.andb_false_r. reflexivity.
+    - eexists. split.
+      + unfold text_of. now rewrite Bool.andb_true_r.
+      + apply Forall_forall. intros x Hx. apply in_map_iff in Hx. destruct Hx as [a [<- Ha]].
+        exists a, (otext a). split; [reflexivity|]. destruct (Haff_in a Ha) as [n [Hn <-]].
+        destruct (Haff_L n Hn) as [HnL [Hnk' _]]. split; [now apply in_map | exact Hnk'].
     - intros st Hfiles.
       destruct (overrides_spec otext aff_keys st) as [st1 [Hap1 Hst1]].
       { intros a Ha. destruct (Haff_in a Ha) as [n [Hn <-]]. apply Hfiles.
@@ -423,8 +490,7 @@ Section Root.
         rewrite Hst1, Hnew_notaff, Hstnew.
         unfold upd at 1. rewrite String.eqb_refl. reflexivity.
       + unfold upd. repeat split.
-        * rewrite String.eqb_refl. unfold new_text_of. rewrite append_nil_r.
-          destruct (fx_meta fx); cbn [andb]; [reflexivity|]. now rewrite (tl_find_none L new Hfree).
+        * rewrite String.eqb_refl. unfold text_of. rewrite append_nil_r. now rewrite Bool.andb_true_r.
         * destruct (String.eqb_spec k new) as [E|_]; [contradiction|]. now rewrite String.eqb_refl.
         * intros n HnL Hnk'.
           assert (Hne : tn_key n <> new) by (intros E; apply Hfree; rewrite <- E; now apply in_map).
@@ -452,6 +518,77 @@ Section Root.
           -- intros Hin. destruct (Haff_in s Hin) as [m [Hm E]]. apply Hs. rewrite <- E.
              apply in_map. now apply Haff_L.
   Qed.
+End Anywhere.
+
+(* The repaired tree, from a note in any directory, any spelling of the new name (with or
+   without `.md`, `./x`, `../x`, `x/`): no hypothesis on the cursor's note or on the name is left. *)
+Theorem rename_subdir (fx : fixes) (o : opts) (L : tlib) (doc url new_name : string) :
+  fx_subdir fx = true ->
+  NoDup (tl_keys L) ->
+  In (from_rel_link_url url (key_parent doc)) (tl_keys L) ->
+  ~ In (from_rel_link_url new_name (key_parent doc)) (tl_keys L) ->
+  let k := from_rel_link_url url (key_parent doc) in
+  let new := from_rel_link_url new_name (key_parent doc) in
+  exists nk ops,
+    tl_find L k = Some nk /\
+    rename_core fx o tree_scan L doc (Ok (Some url)) new_name = Ok (REdits ops) /\
+    (exists ov, ops = ov ++ [OpDelete k; OpCreate new;
+                             OpInsert new (text_of fx o k new nk new (if fx_meta fx then tn_meta nk else None))] /\
+                Forall (fun x => exists a t, x = OpOverride a t /\ In a (tl_keys L) /\ a <> k) ov) /\
+    forall st, files_of L st ->
+      exists st', apply_edits ops st = Some st' /\
+        st' new = Some (text_of fx o k new nk new (if fx_meta fx then tn_meta nk else None)) /\
+        st' k = None /\
+        (forall n, In n L -> tn_key n <> k ->
+           st' (tn_key n) = if tree_refers k (tn_tree n)
+                            then Some (text_of fx o k new n (tn_key n) (tn_meta n))
+                            else st (tn_key n)) /\
+        (forall s, ~ In s (tl_keys L) -> s <> new -> st' s = None).
+Proof.
+  intros Hs Hnd Hk Hfree. cbv zeta. apply rename_anywhere; auto.
+Qed.
+
+(* ---------- rename from a note in the library root -------------------------------------------------- *)
+
+Section Root.
+  Variables (fx : fixes) (o : opts) (L : tlib).
+  Variables (doc url new : string).
+
+  Let k := from_rel_link_url url "".
+
+  (* the text handle_rename writes for a note of the library *)
+  Definition new_text_of (n : tnote) (key : string) (meta : option string) : string :=
+    export_tree o meta (tn_tables n) key (change_key_tree fx k new (tn_tree n)).
+
+  Hypothesis Hnodup : NoDup (tl_keys L).
+  Hypothesis Hdoc : key_parent doc = "".
+  Hypothesis Hk : In k (tl_keys L).
+  Hypothesis Hmd : ends_with MD new = false.          (* the new name is typed without `.md` *)
+  Hypothesis Hcanon : from_rel_link_url new "" = new. (* and the way its key is written *)
+  Hypothesis Hfree : ~ In new (tl_keys L).
+
+  (* every variant of the tree, the unrepaired ones included: from a root note, with a name
+     spelled like its key, the two readings of the name coincide *)
+  Theorem rename_root :
+    exists nk ops,
+      tl_find L k = Some nk /\
+      rename_core fx o tree_scan L doc (Ok (Some url)) new = Ok (REdits ops) /\
+      forall st, files_of L st ->
+        exists st', apply_edits ops st = Some st' /\
+          st' new = Some (new_text_of nk new (if fx_meta fx then tn_meta nk else None)) /\
+          st' k = None /\
+          (forall n, In n L -> tn_key n <> k ->
+             st' (tn_key n) = if tree_refers k (tn_tree n)
+                              then Some (new_text_of n (tn_key n) (tn_meta n))
+                              else st (tn_key n)) /\
+          (forall s, ~ In s (tl_keys L) -> s <> new -> st' s = None).
+  Proof.
+    assert (Hnew : key_from_file_name new = new) by now apply link_key_from_file_name.
+    pose proof (rename_anywhere fx o L doc url new) as H. rewrite Hdoc, Hcanon in H.
+    destruct H as (nk & ops & H1 & H2 & _ & H3);
+      [exact Hnodup | exact Hk | exact Hfree | right; split; [exact Hnew | now apply strip_md_none] |].
+    exists nk, ops. split; [exact H1|]. split; [exact H2|]. exact H3.
+  Qed.
 End Root.
 
 (* ---------- concrete witnesses of the defects of the unchanged tree ------------------------------- *)
@@ -476,15 +613,34 @@ Lemma label_kept_repaired :
   = Ok (REdits [OpOverride "a" ("[label](new) x" +++ LFS); OpDelete "k"; OpCreate "new"; OpInsert "new" ("# K" +++ LFS)]).
 Proof. vm_compute. reflexivity. Qed.
 
-(* W2: the cursor is in `d/b` (block reference `[K](../k)`): build_key("new") but
-   export_key("d/new") *)
+(* W2: the cursor is in `d/b` (block reference `[K](../k)`).  As found: build_key("new") but
+   export_key("d/new").  Repaired: the name typed over the placeholder `../k` is read from d/ like
+   the placeholder: `new` files the note under d/new (and `[K](../k)` in d/b becomes `[K](new)`),
+   `../new` keeps it in the root *)
 Definition W2 : tlib :=
   [TN "d/b" None (doc_of "d/b" [T None (NRef "k" "K" Regular) []]) [];
    TN "k" None (doc_of "k" [sect [Str "K"] []]) []].
 
-Lemma subdir_panics fx :
-  rename_core fx o0 tree_scan W2 "d/b" (Ok (Some "../k")) "new" = Panic "to have key".
-Proof. destruct fx as [[] [] []]; vm_compute; reflexivity. Qed.
+Lemma subdir_panics_as_found l m d :
+  rename_core (FX l m d false) o0 tree_scan W2 "d/b" (Ok (Some "../k")) "new" = Panic "to have key".
+Proof. destruct l, m, d; vm_compute; reflexivity. Qed.
+
+Lemma subdir_renames_repaired l m d :
+  rename_core (FX l m d true) o0 tree_scan W2 "d/b" (Ok (Some "../k")) "new"
+  = Ok (REdits [OpOverride "d/b" ("[K](new)" +++ LFS); OpDelete "k"; OpCreate "d/new"; OpInsert "d/new" ("# K" +++ LFS)]) /\
+  rename_core (FX l m d true) o0 tree_scan W2 "d/b" (Ok (Some "../k")) "../new"
+  = Ok (REdits [OpOverride "d/b" ("[K](../new)" +++ LFS); OpDelete "k"; OpCreate "new"; OpInsert "new" ("# K" +++ LFS)]) /\
+  rename_core (FX l m d true) o0 tree_scan W2 "d/b" (Ok (Some "../k")) "b"
+  = Ok (RErr (taken_msg "b")).
+Proof. destruct l, m, d; repeat split; vm_compute; reflexivity. Qed.
+
+(* a new name not spelled like its key, from a root note: as found the same panic, repaired the
+   note is filed under the key `new` *)
+Lemma unspelled_name_as_found_and_repaired l m d :
+  rename_core (FX l m d false) o0 tree_scan W2 "k" (Ok (Some "k")) "./new" = Panic "to have key" /\
+  rename_core (FX l m d true) o0 tree_scan W2 "k" (Ok (Some "k")) "./new"
+  = Ok (REdits [OpOverride "d/b" ("[K](../new)" +++ LFS); OpDelete "k"; OpCreate "new"; OpInsert "new" ("# K" +++ LFS)]).
+Proof. destruct l, m, d; split; vm_compute; reflexivity. Qed.
 
 (* W3: the link under the cursor names no note *)
 Lemma dangling_panics_as_found :
@@ -532,7 +688,7 @@ Lemma move_dir_inline_not_rebased fx :
   rename_core fx o0 tree_scan W7 "k" (Ok (Some "k")) "d/new"
   = Ok (REdits [OpDelete "k"; OpCreate "d/new"; OpInsert "d/new" ("see [A](a)" +++ LFS +++ LFS +++ "[A](../a)" +++ LFS)]) /\
   from_rel_link_url "a" (key_parent "d/new") = "d/a".
-Proof. destruct fx as [[] [] []]; split; vm_compute; reflexivity. Qed.
+Proof. destruct fx as [[] [] [] []]; split; vm_compute; reflexivity. Qed.
 
 (* the hypotheses of rename_root are satisfiable *)
 Lemma rename_root_nonvacuous :
@@ -555,7 +711,7 @@ Lemma rename_core_scan_ext fx o (scan : scan_t) L doc site new_name :
   rename_core fx o scan L doc site new_name = rename_core fx o tree_scan L doc site new_name.
 Proof.
   intros H. unfold rename_core.
-  destruct (tl_find L (key_from_file_name new_name)); [reflexivity|].
+  destruct (tl_find L (new_key_of fx doc new_name)); [reflexivity|].
   destruct site as [[url|]|s]; cbn [bind]; try reflexivity.
   destruct (tl_find L (from_rel_link_url url (key_parent doc))); [|reflexivity].
   destruct (H (from_rel_link_url url (key_parent doc))) as [r [Hs Hr]].
